@@ -13,8 +13,9 @@ def run(out: common.Outcome):
     rnd = random.Random(out.seed + 4)
     model = Model()
     corr = Corr(out, model, rnd)
-    out.coverage["source_pin"] = common.source_hash(system_common.PINS)
+    common.pins_changed(out, system_common.PINS)
     n = 300 if out.tier == "quick" else 10000
+    n = int(n * out.boost)
     mons = ["report_fifo", "internal_error"]
     for prof, share in (("nocrash", 0.5), ("mixed", 0.5)):
         jobs = system_common.make_jobs(rnd, int(n * share), prof)
@@ -24,6 +25,7 @@ def run(out: common.Outcome):
     model.close()
     # ---- glue: real runs, distributed vs in-process
     nsuites = 2 if out.tier == "quick" else 16
+    nsuites = int(nsuites * out.boost)
     runs = 0
     samples = []
     for k in range(nsuites):
